@@ -47,8 +47,8 @@ module proves the success itself.
   ORIGINAL circuit `wfNoTrail`, `forksDenseB`; on the library `libOKB` (every implementation satisfies `implSomeOKB`; for the
   built-in libraries `library_impls_ok`); per instance `resolveInstB` = the per-instance clauses `instHypB` (the cell is no port and no
   fork, `noSelfIgnB`, `addFreshB`, `arityOKB`) ON THE CIRCUIT AS IT IS WHEN THE SUBSTITUTION OF THAT INSTANCE STARTS.  `resolveInstB`
-  does NOT contain the success of `substitute` (`none ⇒ true`), so the theorem is not an unfolding; but the per-instance clauses are
-  still evaluated along the model's run, not on the original circuit.  Evaluated per generated resolve case by harness/c10.py
+  does NOT contain the success of `substitute` (`none ⇒ true`), so the theorem is not an unfolding; the per-instance clauses are
+  evaluated along the model's run here — `resolve_isSome_static` (below) derives them from the original circuit.  Evaluated per generated resolve case by harness/c10.py
   (driver `resolveok`, fields 8-14; tags `runSome-hyp:*`; inside the hypotheses a raise of the real code is a broken tie).
   `resolve_two_instances_isSome`: the theorem applied to a host with TWO instances of cells FROM THE GENERATED TABLE (NANGATE `TBUF_X1`,
   which ignores its connected `EN` pin; `ANTENNA`, which has no output and no designated cell: the instance is removed, indices move).
@@ -57,7 +57,7 @@ module proves the success itself.
   a real use inside the hypotheses on which the real code raises is a broken tie.
 * **Theorem** `substitute_kindNames_subset` / `substitute_keys_subset` (transport lemma (3) of the list below, Proofs/SubstKeys.lean): under
   `substSomeHypB` every node of the result carries the (kind, name) of a host node, or (kind of the designated cell, name of the
-  instance), or of an added node: `h'.keys ⊆ h.keys ∪ {re-kinded instance} ∪ addedKeys`.  Not yet used by a whole-run theorem.
+  instance), or of an added node: `h'.keys ⊆ h.keys ∪ {re-kinded instance} ∪ addedKeys`.  Used by the whole-run induction of `resolve_isSome_static` (next item).
 * **Theorem** `resolve_isSome_static` / `resolveInstB_of_resolveStaticB` (audit 2, finding 6, open part — now closed; section "fully
   static whole-run theorem" at the end, Proofs/ResolveStatic.lean, Proofs/SubstTwin.lean, Proofs/DanglingLens.lean, Proofs/SubstLens.lean):
   a WHOLE `resolve_tlib_cells` run returns a circuit (again `wfNoTrail` with gap-free forks) under hypotheses on the ORIGINAL circuit and
@@ -354,6 +354,12 @@ example : resolveStaticB exLib3 { exHost3 with names := #["a", "b", "c", "u", "v
     resolveStaticB exLib3 { exHost3 with names := #["a", "b", "c", "u", "u", "z", "y", "q"] } = false ∧
     resolveStaticB exLib2
       { exHost2 with net := { exHost2.net with nodes := exHost2.net.nodes.modify 4 fun n => { n with ins := [some 3, none] } } } = false := by
+  decide +kernel
+/-- … and on an instance whose output drives its own IGNORED input pin (`TBUF_X1` ignores `EN`; the real code calls `Line.remove()` on a
+    line it still holds in `node_out_lines`): the circuit is well-formed with gap-free forks, `instStaticB` fails at `noSelfIgnB` -/
+example : let h : NNet := { net := { nodes := #[⟨"input", [], [some 0]⟩, ⟨"TBUF_X1", [some 0, some 1], [some 1]⟩],
+                                     lines := #[⟨0, 0, 1, 0⟩, ⟨1, 0, 1, 1⟩], io := [0] }, names := #["a", "u"] }
+    h.wfNoTrail = true ∧ forksDenseB h.net = true ∧ instStaticB exLib2 h 1 = false ∧ resolveStaticB exLib2 h = false := by
   decide +kernel
 
 end KV.C10
